@@ -931,6 +931,7 @@ class RpcServer:
                 except ProtocolVersionError as exc:
                     err_schema = info.result_schema if info.method_type == MethodType.UNARY else _EMPTY_SCHEMA
                     _write_error_stream(transport.writer, err_schema, exc, server_id=self._server_id)
+                    self._discard_rejected_stream_input(transport, info)
                     return
 
             # Request validation. Both steps are answered with a typed error
@@ -954,6 +955,7 @@ class RpcServer:
             except Exception as exc:
                 err_schema = info.result_schema if info.method_type == MethodType.UNARY else _EMPTY_SCHEMA
                 _write_error_stream(transport.writer, err_schema, exc, server_id=self._server_id)
+                self._discard_rejected_stream_input(transport, info)
                 return
 
             # Determine the SHM segment for this call's data plane (resolving
@@ -996,6 +998,22 @@ class RpcServer:
             _current_request_metadata.reset(md_token)
             _current_call_stats.reset(stats_token)
             _current_request_id.reset(token)
+
+    def _discard_rejected_stream_input(self, transport: RpcTransport, info: RpcMethodInfo) -> None:
+        """Consume the input stream that follows a rejected header-less stream request.
+
+        A client of a stream method without a header learns about an
+        initialization failure only when it reads its first response, by
+        which time it has opened (and will close) its phase-2 input IPC
+        stream.  Left unread, that stream would be parsed as the next
+        *request* and every later response on the connection would be
+        shifted by one.  Header-declaring streams report the failure in
+        place of the header, before any input stream exists.
+        """
+        if info.method_type != MethodType.STREAM or info.header_type is not None:
+            return
+        with contextlib.suppress(pa.ArrowInvalid, OSError, StopIteration):
+            _drain_stream(ValidatedReader(ipc.open_stream(transport.reader), self._ipc_validation))
 
     def _prepare_method_call(
         self, info: RpcMethodInfo, kwargs: dict[str, object]
@@ -1136,6 +1154,7 @@ class RpcServer:
             error_message = str(exc)
             with contextlib.suppress(BrokenPipeError, OSError):
                 _write_error_stream(transport.writer, _EMPTY_SCHEMA, exc, server_id=self._server_id)
+            self._discard_rejected_stream_input(transport, info)
             return
         finally:
             if status == "error":
